@@ -889,6 +889,14 @@ int32 sslActivateReadCipher(ssl_t *ssl)
 
 int32 sslActivateWriteCipher(ssl_t *ssl)
 {
+    if (ssl->cipher->ident != SSL_NULL_WITH_NULL_NULL &&
+        (ssl->sec.wKeyptr == NULL || ssl->sec.wIVptr == NULL))
+    {
+        /* No key block has been derived (a DTLS flight resend attempted from
+           a state whose flight was never built): nothing to activate */
+        psTraceErrr("sslActivateWriteCipher: no key material\n");
+        return PS_FAILURE;
+    }
 # ifdef USE_DTLS
     if (ACTV_VER(ssl, v_dtls_any))
     {
